@@ -54,7 +54,7 @@ def engage(w, cube, poolsize):
 
 
 class PooledOutcome:
-    __slots__ = ("out", "exc", "session", "how")
+    __slots__ = ("out", "exc", "session", "how", "pending")
 
 
 def pooled_eval(w, poolsize, spec, rng=None, script=None, step_cap=5_000_000, cube=None, aggs=None,
@@ -76,6 +76,7 @@ def pooled_eval(w, poolsize, spec, rng=None, script=None, step_cap=5_000_000, cu
     res.out = res.exc = None
     sess = sched.Session(spec, rng=rng, script=script, step_cap=step_cap)
     res.session = sess
+    sched.drain_pending()
     with sess:
         try:
             res.out = cubes.evaluate(cube, aggs)
@@ -83,6 +84,7 @@ def pooled_eval(w, poolsize, spec, rng=None, script=None, step_cap=5_000_000, cu
             raise core.HarnessError("scheduler: %s" % e)
         except Exception as e:
             res.exc = e
+    res.pending = sched.drain_pending()
     alive = sess.live_sim_threads()
     if alive:
         raise core.HarnessError("simulated threads still alive after the evaluation: %r" % alive)
